@@ -14,7 +14,7 @@ import warnings
 
 import numpy as np
 
-from .project import NAN, ProjectionError, pv, to_float
+from .project import NAN, ProjectionError, pv, pv_out, to_float
 
 LABELS = {
     "int": [3, 7, 8, 20, 21, 34],
@@ -130,7 +130,7 @@ def project_out(func: str, result, tol=1e-9):
     if func in STD_FUNCS:
         with np.errstate(all="ignore"):
             res = res.astype(float) ** 2
-    return [pv(x, tol) for x in res.reshape(-1)]
+    return [pv_out(x, tol) for x in res.reshape(-1)]
 
 
 def run_reduce_case(case: dict) -> dict:
